@@ -174,7 +174,9 @@ pub fn check(cx: &Cx, rep: &mut Report) {
                 let fault_cause = ix.faults.iter().filter(|f| ix.ev[f.0 as usize].task == af.task).map(|f| ix.ops.iter().filter(|o| o.msg == f.2 && o.msg != 0).map(|o| o.b).min().unwrap_or(f.0).min(f.0)).min();
                 let cause = [af.first_term_cause(), fault_cause, af.task_end.map(|e| e.0)].into_iter().flatten().min();
                 let barrier = barriers.iter().any(|(t, b, r)| *t == p.topic && *b > pr && cause.map(|c| *r < c).unwrap_or(true));
-                if barrier {
+                // on L2 a missing delivery is only final once the subscriber has completed stopped()
+                let final_ok = !cx.mt || matches!(af.t_final(), Some((_, Some(_)))) || n >= 1;
+                if barrier && final_ok {
                     rep.premise("C09.R1.subscribed_exactly_once");
                     if mine.iter().filter(|s| s.sub).count() > 1 {
                         rep.premise("C09.R1.resubscribed_still_once");
